@@ -82,6 +82,10 @@ func c10Child(line string) (res string) {
 			bv.ValidateAsWound(int64(i), 0, []byte{1, 2, 3})
 		}
 		return "ok"
+	case "resume-plain", "resume-optimized":
+		// the truncated stream is handed to a brand-new patcher that RESUMES from a checkpoint taken on the intact
+		// stream (every checkpoint whose source offset lies inside what is left of the stream)
+		return c10ResumeTruncated(f[0] == "resume-optimized", data, oldDir, newDir)
 	case "overlay":
 		w := &wvlib.MemFile{Data: make([]byte, 1000)}
 		pc := &overlay.OverlayPatchContext{}
@@ -91,6 +95,77 @@ func c10Child(line string) (res string) {
 		return "ok"
 	}
 	return "bad-request"
+}
+
+type c10Full struct {
+	patch []byte
+	cks   [][]byte
+	hdr   int64
+	out   string
+}
+
+var c10FullCache = map[string]*c10Full{}
+
+// c10FullRun: the intact stream of (oldDir,newDir) applied once with a consumer that always saves.
+func c10FullRun(optimized bool, oldDir, newDir string) (*c10Full, error) {
+	key := fmt.Sprint(optimized, oldDir)
+	if f, ok := c10FullCache[key]; ok {
+		return f, nil
+	}
+	res, err := diffDirs(oldDir, newDir, Comp{"none", 0}, nil)
+	if err != nil {
+		return nil, err
+	}
+	patch := res.Patch
+	if optimized {
+		o := optimizeReal(patch, oldDir, newDir, &C07Case{Force: true, OutComp: Comp{"none", 0}, Partitions: 1}, res)
+		if o.err != "" {
+			return nil, fmt.Errorf("%s", o.err)
+		}
+		patch = o.patch
+	}
+	out, _ := os.MkdirTemp("", "wv-c10r-")
+	sv := &recSaver{stopAt: -1, every: 1}
+	if _, err := c03Session(patch, oldDir, out+"/o", out+"/stage", "fresh", nil, sv); err != nil {
+		return nil, err
+	}
+	f := &c10Full{patch: patch, cks: sv.saved, out: out, hdr: 4 + frameLen(&pwr.PatchHeader{Compression: Comp{"none", 0}.settings()})}
+	c10FullCache[key] = f
+	return f, nil
+}
+
+func c10ResumeTruncated(optimized bool, data []byte, oldDir, newDir string) string {
+	full, err := c10FullRun(optimized, oldDir, newDir)
+	if err != nil {
+		return "ok" // nothing to resume from
+	}
+	tried, failed := 0, 0
+	for _, b := range full.cks {
+		ck, err := decodeCheckpoint(b)
+		if err != nil || ck.MessageCheckpoint == nil || ck.MessageCheckpoint.SourceCheckpoint == nil {
+			continue
+		}
+		if int64(len(data)) < full.hdr+ck.MessageCheckpoint.SourceCheckpoint.Offset {
+			// the stream ends before the point the SOURCE is asked to restart from: the savior seek source (an
+			// external dependency) slices with a negative length there; outside this property's quantifier
+			continue
+		}
+		tried++
+		_, err = c03Session(data, oldDir, full.out+"/o", full.out+"/stage", "fresh", ck, &recSaver{stopAt: -1, every: 1})
+		if err != nil && strings.HasPrefix(err.Error(), "PANIC") {
+			return "panic " + err.Error()
+		}
+		if err != nil {
+			failed++
+		}
+		if tried >= 4 {
+			break
+		}
+	}
+	if failed > 0 {
+		return fmt.Sprintf("err %d of %d resumed runs returned an error", failed, tried)
+	}
+	return "ok"
 }
 
 type C10Case struct {
@@ -182,6 +257,7 @@ func frameBoundaries(data []byte) []int {
 func c10Oracle(env *Env, c *C10Case, ans string, crashed bool, diag string) string {
 	switch {
 	case crashed && strings.Contains(diag, "hang"):
+		wvlib.NoteHang()
 		env.R.Violate("hang:"+c.Consumer, diag, c)
 		return "hang"
 	case crashed:
@@ -373,6 +449,10 @@ func runC10(env *Env) {
 				addTrunc("signature", "signature", comp, b.sig[comp.Algo])
 			}
 			addTrunc("overlay", "overlay", Comp{"none", 0}, b.overlayStream)
+			if bi < 2 || env.Thorough() {
+				addTrunc("plain", "resume-plain", Comp{"none", 0}, b.plain["none"])
+				addTrunc("optimized", "resume-optimized", Comp{"none", 0}, b.optimized["none"])
+			}
 		}
 		for k := 0; k < nMut; k++ {
 			b := bases[k%len(bases)]
